@@ -6,7 +6,9 @@ rows = []
 for p in sorted(glob.glob(os.path.join(ROOT, "seeded", "C*-*", "meta.json"))):
     m = json.load(open(p))
     det = m.get("detected_by") or []
-    det = ", ".join(det) if det else "**not detected**"
+    det = ", ".join(det) if det else ("**not reported** (see the text below the batch tables)" if m.get("not_detectable") else "**not detected**")
+    if m.get("tier") == "thorough" and det and "thorough" not in det:
+        det += " (thorough tier)"
     needs = m.get("needs", "").replace("|", "/").replace("\n", " ")
     rows.append(f"| {m['id']} | {needs[:230]} | {det} |")
 print("| change | what it needs in order to manifest | reported by |")
